@@ -12,6 +12,8 @@ Model: `Saito.Dispatch` (decision logic of `RoutingThread::process_network_event
 * `pinned_panic_exact`, `pinned_stall_exact`: on the pinned tree the handlers panic (stall) EXACTLY on the listed
   (node, event) classes `inClass` / `stallClass`; a panic anywhere else is a disagreement, not a known finding.
 * one `*_witness` per reproduced site (the concrete event sequence the harness replays on the real code).
+* `f1f5_panic_exact`, `f1f5_stall_exact`: the same exactness for the flag vector MEASURED on a tree carrying the repairs F1
+  and F5 (`Flags.f1f5`): the pinned classes minus the supply-check class and the transaction-decoder class.
 -/
 namespace Saito.C11
 open Saito.Dispatch
@@ -476,5 +478,120 @@ example : (handle .pinned { n0 with peers := [{ idx := 3, msg := ⟨100000, fals
 example : bad (run .pinned n0 [.msg 3 .challenge, .msg 3 (.resp true false true 3), .connect 3, .msg 3 (.tx .badsig), .runV,
     .fetched 3 .garbage, .runV, .fetched 2 .next, .runV, .runC, .msg 2 (.tx .valid), .runV, .runC, .tick true,
     .disconnect 3, .msg 9 .ping, .advance]).2 = false := by decide +kernel
+
+/-! ### a tree with repairs F1 (transaction verdict honoured) and F5 (transaction decoder bounds): measured flag vector -/
+
+/-- the flag vector MEASURED on a tree that carries repairs F1 (per-transaction verdict honoured) and F5 (bounds check in
+    the transaction decoder): two sites gone, a block spending a non-existent output rejected in full and browser mode -/
+def Flags.f1f5 : Flags :=
+  { Flags.pinned with txVerdict := true, txBounds := true, spendMissingRejected := true, spendMissingRejectedBrowser := true }
+
+def keepF1F5 (s : Site) : Bool := s != .totalSupply && s != .decodeTx
+
+theorem routeMsg_site_f1f5 (n : Node) (p : Peer) (m : MsgC) (hm : m ≠ .txtrunc) (hg : m ≠ .ghostshort) :
+    siteOf (routeMsg Flags.f1f5 n p m).out = siteOf (routeMsg .pinned n p m).out := by
+  cases m <;> rfl
+
+theorem onMsg_site_f1f5 (n : Node) (i : Nat) (m : MsgC) :
+    siteOf (onMsg Flags.f1f5 n i m).out = (classOf n (.msg i m)).filter keepF1F5 := by
+  rw [← onMsg_site]
+  simp only [onMsg]
+  cases hf : findPeer n.peers i with
+  | none => simp [siteOf]
+  | some p =>
+    simp only []
+    split
+    · simp [siteOf]
+    · cases m
+      case txtrunc => simp [Flags.pinned, Flags.f1f5, siteOf, routeMsg]; rfl
+      case ghostshort => simp [Flags.pinned, Flags.f1f5, siteOf]; rfl
+      all_goals (simp only []; rw [routeMsg_site_f1f5 _ _ _ (by simp) (by simp)]; rw [routeMsg_site _ _ _ (by simp) (by simp)])
+      all_goals (repeat' split)
+      all_goals (first | rfl | simp_all)
+
+theorem step_site_f1f5 (n : Node) (e : Event) :
+    siteOf (step Flags.f1f5 n e).out = (classOf n e).filter keepF1F5 := by
+  cases e
+  case msg i m => exact onMsg_site_f1f5 n i m
+  case runC =>
+    simp only [step, runC, classOf, Flags.pinned, Flags.f1f5]
+    cases n.cq with
+    | nil => simp [siteOf]
+    | cons r rest =>
+      cases r with
+      | tx c => cases c <;> simp [siteOf, TxC.isGT, TxC.gtPayloadOk] <;> rfl
+      | blk i c => cases c <;> simp only [] <;> (repeat' split) <;> (first | rfl | simp_all [siteOf] | (simp_all [siteOf]; rfl))
+  case runV =>
+    simp only [step, runV, classOf, Flags.pinned, Flags.f1f5]
+    cases n.vq with
+    | nil => simp [siteOf]
+    | cons r rest =>
+      cases r with
+      | tx i c => simp only []; split <;> simp [siteOf]
+      | blk i c => cases c <;> simp [siteOf] <;> rfl
+  case tick b =>
+    simp only [step, tick, classOf, Flags.pinned, Flags.f1f5]
+    generalize (n.mode == Mode.full && !n.chainEmpty) = pr
+    generalize n.tipAhead = ah
+    generalize (n.pool.any TxC.inputless) = inl
+    cases pr <;> cases ah <;> cases b <;> cases inl <;> simp [siteOf] <;> rfl
+  case connect p => simp only [step, onConnect, classOf]; repeat' split
+                    all_goals simp [siteOf]
+  case connectFailed => simp [step, classOf, siteOf]
+  case disconnect p => simp only [step, onDisconnect, classOf]; split <;> simp [siteOf]
+  case fetched p b => simp only [step, onFetched, classOf]; repeat' split
+                      all_goals simp [siteOf]
+  case fetchFailed p => simp [step, classOf, siteOf]
+  case advance => simp [step, classOf, siteOf]
+
+/-- the tree with F1 and F5: the handlers panic EXACTLY on the pinned classes minus the supply-check class and the
+    transaction-decoder class — the other ten sites are untouched by these repairs -/
+theorem f1f5_panic_exact (n : Node) (e : Event) (s : Site) :
+    (handle Flags.f1f5 n e).2 = .panic s ↔ (classOf n e = some s ∧ s ≠ .totalSupply ∧ s ≠ .decodeTx) := by
+  have h := step_site_f1f5 n e
+  have hs : ∀ o : Outcome, siteOf o = some s ↔ o = .panic s := by
+    intro o; cases o <;> simp [siteOf]
+  have hk : keepF1F5 s = true ↔ (s ≠ .totalSupply ∧ s ≠ .decodeTx) := by
+    cases s <;> simp [keepF1F5]
+  unfold handle
+  simp only []
+  rw [← hs, h, Option.filter_eq_some_iff, hk]
+
+theorem f1f5_stall_exact (n : Node) (e : Event) :
+    (handle Flags.f1f5 n e).2 = .stall ↔ stallClass n e = true := by
+  unfold handle
+  cases e
+  case msg i m =>
+    simp only [step, stallClass, onMsg]
+    cases m <;> (repeat' split) <;> (try simp only [routeMsg, hsResponse]) <;> (repeat' split) <;> simp
+  case runC =>
+    simp only [step, runC, stallClass, Flags.pinned, Flags.f1f5]
+    cases n.cq with
+    | nil => simp
+    | cons r rest =>
+      cases r with
+      | tx c => simp only []; repeat' split
+                all_goals simp
+      | blk i c => cases c <;> simp <;> (repeat' split) <;> simp_all
+  case runV =>
+    simp only [step, runV, stallClass]
+    repeat' split
+    all_goals simp
+  case tick b =>
+    simp only [step, tick, stallClass, Flags.pinned, Flags.f1f5]
+    generalize (n.mode == Mode.full && !n.chainEmpty) = pr
+    generalize n.tipAhead = ah
+    generalize (n.pool.any TxC.inputless) = inl
+    cases pr <;> cases ah <;> cases b <;> cases inl <;> simp
+  all_goals (simp only [step, stallClass, onConnect, onDisconnect, onFetched]; repeat' split)
+  all_goals simp
+
+
+/-- with F1 the block that spends a non-existent output is refused (full and browser mode) and refusing it is inert -/
+example : (run Flags.f1f5 n0 [.fetched 3 .spendmissing, .runV, .runC]).2 = .handled
+    ∧ (handle Flags.f1f5 (run Flags.f1f5 n0 [.fetched 3 .spendmissing, .runV]).1 .runC).2 = .rejected
+    ∧ (handle Flags.f1f5 { (run Flags.f1f5 n0 [.fetched 3 .spendmissing, .runV]).1 with mode := .browser } .runC).2 = .rejected
+    ∧ (handle Flags.f1f5 { (run Flags.f1f5 n0 [.fetched 3 .spendmissing, .runV]).1 with mode := .spv } .runC).2 = .handled
+    ∧ (handle Flags.f1f5 n0 (.msg 3 .txtrunc)).2 = .disconnected := by decide +kernel
 
 end Saito.C11
